@@ -10,6 +10,7 @@ N2 == {"A", "B"}
 N3 == {"A", "B", "C"}
 KAct == [m \in {"A", "B", "C"} |-> CASE m = "A" -> {"p"} [] m = "B" -> {"p", "q"} [] OTHER -> {}]
 KAct0 == [m \in {"A", "B", "C"} |-> CASE m = "A" -> {"p"} [] OTHER -> {}]
+KActPP == [m \in {"A", "B", "C"} |-> CASE m = "C" -> {} [] OTHER -> {"p"}]
 NoGhosts == {}
 KP == {"p"}
 KPQ == {"p", "q"}
